@@ -630,6 +630,16 @@ class SourceHandler:
         derived_max_seg_len = get_max_file_seg_len_for_max_packet_len_and_pdu_cfg(
             self._params.pdu_conf, self._params.remote_cfg.max_packet_len
         )
+        # The EOF PDU has to fit as well: header, directive code, condition code, checksum and the
+        # file size field (plus the PDU CRC).
+        eof_pdu_len = self._params.pdu_conf.header_len() + 1 + 1 + 4
+        eof_pdu_len += 8 if self._params.pdu_conf.file_flag == LargeFileFlag.LARGE else 4
+        if self._params.pdu_conf.crc_flag == CrcFlag.WITH_CRC:
+            eof_pdu_len += 2
+        if self._params.remote_cfg.max_packet_len < eof_pdu_len:
+            raise ValueError(
+                f"max packet length {self._params.remote_cfg.max_packet_len} can not hold an EOF PDU"
+            )
         self._params.fp.segment_len = derived_max_seg_len
         if (
             self._params.remote_cfg.max_file_segment_len is not None
